@@ -148,6 +148,22 @@ def main(pid):
             items.append({"text": text, "want_ties": True})
             exps.append(ex)
             metas.append({"label": "db-journal", "shape": sh["shape"]})
+    # laws: every example citation of laws.json (the written core is the example; statutes carry their
+    # own pin cite syntax, so the span must start at the example and end inside it)
+    lshape = next(x for x in shapes if x["shape"] == {"form": "law", "lead": "prose", "parties": "none", "preyear": False, "pin": "none",
+                                                      "parallel": False, "yp": "none", "paren": "none", "term": "semi", "trail": "sentence"})
+    nlaw = 0
+    for law in db["laws"]:
+        for exa in law["examples"]:
+            nlaw += 1
+            text, ex = forms.expected(lshape["shape"], lshape["exp"], dict(pool[0], core=exa, groups={}, e_upper=True))
+            for e in ex:
+                e["yearnum"] = -1
+                e["plaintiff_cp"] = []
+                e["fe"] = -1            # the end of a statute citation inside the example is not specified
+            items.append({"text": text, "want_ties": False})
+            exps.append(ex)
+            metas.append({"label": "db-law", "shape": lshape["shape"]})
     # courts: every parenthetical-safe court string of courts-db in a full case citation
     cshape = next(x for x in shapes if x["shape"] == {"form": "full", "lead": "none", "parties": "pv", "preyear": False, "pin": "p",
                                                       "parallel": False, "yp": "court", "paren": "none", "term": "dot", "trail": "sentence"})
@@ -181,6 +197,7 @@ def main(pid):
     ev.cov["shapes"] = len(shapes)
     ev.cov["reporter_strings_minimal_forms"] = len(seen)
     ev.cov["journal_strings"] = njournal
+    ev.cov["law_examples"] = nlaw
     ev.cov["journal_strings_shared_with_reporters_excluded"] = shared_strings
     ev.cov["court_strings"] = len(allcourts if thorough else allcourts[:: 4])
     ev.cov["edition_clause_skipped_second_pattern"] = skipped_ties
